@@ -286,3 +286,65 @@ Proof.
   - right; left. apply memb_In. exact A5.
   - right; right. apply existsb_exists in A5. destruct A5 as [b' [Hb' Hm]]. exists b'. split; [exact Hb' | apply memb_In; exact Hm].
 Qed.
+
+(** ---- nested = flat evaluation: the paths the nested evaluation leaves ARE the flattened model evaluated at the same shocks with the inner
+     unknowns set to the paths the solved blocks report ---- *)
+Definition copy_paths (us : list nat) (P P0 : paths) : paths := fold_left (fun Q u => upd_nth u (path_of P u) Q) us P0.
+Definition all_unknowns (prog : list nblock) : list nat := flat_map unknowns_of prog.
+
+Lemma copy_paths_spec N (P : paths) us : forall P0, length P0 = N -> (forall u, In u us -> (u < N)%nat) ->
+  length (copy_paths us P P0) = N /\ forall x, path_of (copy_paths us P P0) x = if memb x us then path_of P x else path_of P0 x.
+Proof.
+  unfold copy_paths. induction us as [|u us IH]; intros P0 Hl Hn; cbn [fold_left]; [split; [exact Hl | reflexivity]|].
+  assert (Hu : (u < length P0)%nat) by (rewrite Hl; apply Hn; left; reflexivity).
+  destruct (IH (upd_nth u (path_of P u) P0)) as (L & Hs); [rewrite upd_nth_length by exact Hu; exact Hl | intros; apply Hn; right; assumption |].
+  split; [exact L|]. intros x. rewrite Hs. unfold memb. cbn [existsb]. rewrite path_upd_nth by exact Hu.
+  destruct (Nat.eqb_spec x u) as [->|Hne].
+  - cbn [orb]. destruct (existsb (Nat.eqb u) us); reflexivity.
+  - cbn [orb]. reflexivity.
+Qed.
+
+Lemma wf_nprog_unknowns_lt N : forall prog, wf_nprog N prog -> forall u, In u (all_unknowns prog) -> (u < N)%nat.
+Proof.
+  induction prog as [|nb rest IH]; intros Hn u Hu; [destruct Hu|]. cbn [wf_nprog] in Hn. destruct Hn as (HU & _ & _ & _ & _ & Hr).
+  unfold all_unknowns in Hu. cbn [flat_map] in Hu. apply in_app_or in Hu. destruct Hu as [Hu|Hu]; [apply HU; exact Hu | apply IH; assumption].
+Qed.
+Lemma wf_nprog_unknowns_not_outputs N : forall prog, wf_nprog N prog -> forall u b, In u (all_unknowns prog) -> In b (flatten prog) -> ~ In u (outs_of b).
+Proof.
+  induction prog as [|nb rest IH]; intros Hn u b Hu Hb; [destruct Hu|]. cbn [wf_nprog] in Hn. destruct Hn as (_ & HUearly & HUout & _ & _ & Hr).
+  unfold all_unknowns in Hu. cbn [flat_map] in Hu. apply in_app_or in Hu. destruct Hu as [Hu|Hu]; [apply HUout; assumption|].
+  rewrite flatten_cons in Hb. apply in_app_or in Hb. destruct Hb as [Hb|Hb]; [|apply IH; assumption].
+  unfold all_unknowns in Hu. apply in_flat_map in Hu. destruct Hu as [nb' [Hnb' Hu]]. apply (proj2 (HUearly nb' u b Hnb' Hu Hb)).
+Qed.
+
+Theorem nested_equals_flat_evaluation (force : bool) (itol : Qc) (T : Z) (N : nat) (ss ssi : tbl) : forall prog P0 P, length P0 = N ->
+  wf_prog N (flatten prog) -> wf_nprog N prog ->
+  (forall b o, In b (flatten prog) -> In o (outs_of b) -> path_of P0 o = []) ->
+  (forall nb u, In nb prog -> In u (unknowns_of nb) -> path_of P0 u = []) ->
+  nsteps force itol T ss ssi prog P0 P ->
+  forall x, path_of P x = path_of (nl_eval force T ss ssi (flatten prog) (copy_paths (all_unknowns prog) P P0)) x.
+Proof.
+  intros prog P0 P Hl Hwf Hn Hout0 HU0 Hs x.
+  pose proof (nested_consistent_with_flat force itol T N ss ssi prog P0 P Hl Hwf Hn Hout0 HU0 Hs) as Hfc.
+  destruct (nsteps_untouched force itol T N ss ssi prog P0 P Hl Hwf Hn Hs) as (LP & HunP).
+  destruct (copy_paths_spec N P (all_unknowns prog) P0 Hl (wf_nprog_unknowns_lt N prog Hn)) as (L0 & Hcp).
+  set (P0' := copy_paths (all_unknowns prog) P P0) in *.
+  set (Q := nl_eval force T ss ssi (flatten prog) P0').
+  pose proof (nl_eval_consistent force T ss ssi N (flatten prog) P0' L0 Hwf) as HcQ. fold Q in HcQ.
+  destruct (nl_eval_untouched force T ss ssi N (flatten prog) P0' L0 (wf_prog_outs_lt N _ Hwf)) as (LQ & HunQ). fold Q in LQ, HunQ.
+  (* outputs are not unknowns, so they are empty in P0' too *)
+  assert (Hout0' : forall b o, In b (flatten prog) -> In o (outs_of b) -> path_of P0' o = []).
+  { intros b o Hb Ho. rewrite Hcp. destruct (memb o (all_unknowns prog)) eqn:E; [|apply (Hout0 b o Hb Ho)].
+    exfalso. apply memb_In in E. apply (wf_nprog_unknowns_not_outputs N prog Hn o b E Hb Ho). }
+  assert (HcP : nl_consistent force T ss ssi P0' P (flatten prog)).
+  { intros b oe Hb Hoe. rewrite (Hfc b oe Hb Hoe). destruct (force || existsb (perturbed P) (sb_ins b)); [reflexivity|].
+    symmetry. apply (Hout0' b (fst oe) Hb). apply in_map. exact Hoe. }
+  (* names that no block produces agree *)
+  assert (Hext : forall y, (forall b, In b (flatten prog) -> ~ In y (outs_of b)) -> path_of P y = path_of Q y).
+  { intros y Hy. rewrite (HunQ y Hy). rewrite Hcp. destruct (memb y (all_unknowns prog)) eqn:E; [reflexivity|].
+    apply HunP; [exact Hy|]. intros nb Hnb Hu. apply memb_false in E. apply E. unfold all_unknowns. apply in_flat_map. exists nb. split; assumption. }
+  destruct (in_dec Nat.eq_dec x (flat_map outs_of (flatten prog))) as [Hin|Hnin].
+  - apply in_flat_map in Hin. destruct Hin as [b [Hb Ho]].
+    apply (nl_consistent_unique force T ss ssi N (flatten prog) P0' P Q Hwf HcP HcQ Hext b x Hb Ho).
+  - apply Hext. intros b Hb Ho. apply Hnin. apply in_flat_map. exists b. split; assumption.
+Qed.
